@@ -411,6 +411,32 @@ vf::Result check(const Case& cs) {
                     return fail("C11:mmio:guest", "a guest load from " + vf::hex(a) + " did not return register " + vf::hex(off));
                 vf::klass(w.base == 0x8000 ? "MMIO clause at the default base" : "MMIO clause at a relocated base");
                 nontrivial = true;
+                if ((op.value & 3) == 0) {
+                    // the window is a property of the data address, whatever the MIU's paging configuration maps that address to:
+                    // with paging mode 1 and generated X / Y pages a DSP-path access still reaches the register and no memory cell
+                    const uint16_t xp = (op.value >> 2) & 1, yp = (op.value >> 3) & 1, v2 = (uint16_t)(op.value ^ 0x0FF0);
+                    const uint64_t d0 = s.memory_digest();
+                    s.t->MMIOWrite(0x10E, xp);
+                    s.t->MMIOWrite(0x110, yp);
+                    s.t->MMIOWrite(0x11A, 0x0040);
+                    auto o2 = s.guarded([&] { s.t->DataWrite(a, v2, false); });
+                    uint16_t reg_now = s.t->MMIORead(off);
+                    uint16_t rd = 0;
+                    auto o3 = s.guarded([&] { rd = s.t->DataRead(a, false); });
+                    const uint64_t d1 = s.memory_digest();
+                    s.t->MMIOWrite(0x11A, 0);
+                    s.t->MMIOWrite(0x10E, 0);
+                    s.t->MMIOWrite(0x110, 0);
+                    s.t->MMIOWrite(off, op.value);
+                    const std::string cfg = " (paging mode 1, X page " + std::to_string(xp) + ", Y page " + std::to_string(yp) + ")";
+                    if (o2.kind != 0 || o3.kind != 0)
+                        return fail("C11:mmio:paged:outcome", "DSP-path access inside the MMIO window ended with " + (o2.kind ? o2.what : o3.what) + cfg);
+                    if (reg_now != v2 || rd != v2)
+                        return fail("C11:mmio:paged:not-register", "a DSP-path write / read of " + vf::hex(a) + " did not reach register " + vf::hex(off) + cfg);
+                    if (d0 != d1)
+                        return fail("C11:mmio:paged:memory-touched", "a DSP-path write inside the MMIO window changed memory" + cfg);
+                    vf::klass("MMIO clause under paging mode 1");
+                }
             }
         }
         // window edges: addresses just outside the window are plain memory
